@@ -117,7 +117,7 @@ def lean_audit(prop):
     props_file = os.path.join(LEAN, "Qv", "Props", prop + ".lean")
     if not os.path.exists(props_file):
         return dict(ok=False, obligations=0, discharged=0, theorems=[], problems=["no Props file"])
-    ok, log = lean_build(["Qv.Props." + prop, "driver"])
+    ok, log = lean_build(["Qv.Props." + prop, "driver", "Qv.TieAudit"])     # Qv.TieAudit: harness/tie_audit.py
     if not ok:
         problems.append("lake build failed: " + log[-1500:])
         return dict(ok=False, obligations=0, discharged=0, theorems=[], problems=problems)
